@@ -157,6 +157,10 @@ func subvec(args ...MalType) (MalType, error) {
 		from = args[1].(int)
 		to = args[2].(int)
 	}
+	if from < 0 || to > len(v.Val) || from > to {
+		// slicing is only checked against the capacity by Go: check against the length
+		return nil, fmt.Errorf("subvec: index out of range (from %d to %d on a vector of %d)", from, to, len(v.Val))
+	}
 	return Vector{
 		Val: v.Val[from:to],
 	}, nil
